@@ -105,7 +105,9 @@ theorem exportIndication_valid (C : Codec) (a : Arg) (h : Headers) (x : Xml) (hs
     obtain ⟨rest, hrest, hpl⟩ := bind_ok hpl
     cases hrest
     cases hpl
-    simp only [argXml] at hxi
+    simp only [argXml, instXml] at hxi
+    split at hxi
+    · cases hxi
     obtain ⟨rfl, _⟩ := checked_ok hxi
     have hshape : shapeInst (instSetPath (fun _ => none) i) = true := by
       cases i
